@@ -157,7 +157,9 @@ static void c13_schedules(int shard, long long seed, long long nsteps) {
         else v = (acetime_t) rng.range(0, 1500000000);
         bool ignored_by_mechanism = (cached == v);
         if (ignored_by_mechanism) sets_equal_cached++;
-        c.setNow(v);
+        // one set in four on a clock with a distinct backup goes through setup(): "start from the backup clock's time"
+        bool viaSetup = (cfg == 1 && rng.below(4) == 0);
+        if (viaSetup) { backup.setNow(v); c.setup(); CNT.add("c13.sets_through_setup"); } else c.setNow(v);
         CNT.add("c13.sched_sets");
         snprintf(tb, sizeof tb, "+%u set(%d)%s;", gap, v, ignored_by_mechanism ? "[=cached]" : ""); if (trace.size() < 1500) trace += tb;
         S.init = true; S.T = v; S.m0 = g_true_ms;
@@ -181,9 +183,13 @@ static void c13_schedules(int shard, long long seed, long long nsteps) {
         if (c.getLastSyncTime() != v) { J j; j.str("trace", trace); witness("c13:lastSyncTime-wrong", "getLastSyncTime != value taken by forceSync", j); }
       } else {
         acetime_t before_sync = c.getLastSyncTime();
-        c.setNow(kInv);
+        // the sentinel arrives by setNow(), or - on a clock with a distinct backup - by setup() from a backup clock that
+        // has nothing to report (an RTC that does not answer): ignored either way, the clock keeps running
+        bool viaSetup = (cfg == 1 && rng.below(2) == 0);
+        if (viaSetup) { acetime_t keep = backup.getNow(); backup.setNow(kInv); c.setup(); backup.setNow(keep); CNT.add("c13.invalid_sets_through_setup"); }
+        else c.setNow(kInv);
         CNT.add("c13.sched_invalid_sets");
-        snprintf(tb, sizeof tb, "+%u set(INVALID);", gap); if (trace.size() < 1500) trace += tb;
+        snprintf(tb, sizeof tb, "+%u %s(INVALID);", gap, viaSetup ? "setup" : "set"); if (trace.size() < 1500) trace += tb;
         if (c.getLastSyncTime() != before_sync || c.isInit() != S.init) { J j; j.str("trace", trace); witness("c13:invalid-set-not-ignored", "setNow(kInvalidSeconds) changed the clock state", j); }
       }
     }
